@@ -34,6 +34,11 @@ import CookModel.Lemmas.DiagPlaceDocQty
 import CookModel.Lemmas.DiagPlaceName
 import CookModel.Lemmas.DiagPlaceDocMore
 import CookModel.Lemmas.DiagPlaceInter
+import CookModel.Lemmas.DiagPlaceDocName
+import CookModel.Lemmas.DiagPlaceSingle
+import CookModel.Lemmas.DiagPlaceInterCw
+import CookModel.Lemmas.DiagPlaceDocLock
+import CookModel.Lemmas.DiagPlaceNote
 /-
   C07  Diagnostics are sound, complete and placed on the offending construct.
 
@@ -4135,5 +4140,716 @@ example : (parseRecipe (α := Rat)
       { C07_coreEnv with ext := ⟨Gen.EXT_COMPONENT_MODIFIERS ||| Gen.EXT_INTERMEDIATE_PREPARATIONS⟩ }
       "Use @&(x)y{} now\n".toList).diags.toList =
     [⟨.error, .parse, "inter-ref-invalid", [⟨7, 8⟩]⟩] := by decide +kernel
+
+-- ===== w10c07doc =====
+/-! ## Document-level instances for the pieces WITHOUT a quantity diagnostic (wave 10)
+
+  Duplicate modifiers, modifiers on cookware, the empty-name family (`@{}`, `#{}`, `@{Q}`, `#{Q}`, `@|x{}`), alias
+  errors: the step-level pieces (`C07_planted_constructs`, `C07_planted_cookware_modifiers`,
+  `C07_planted_empty_name_family`, `C07_planted_empty_name_alias`, `C07_planted_alias_errors`) are stated on ACTUAL
+  tokens.  Here the construct is given by SPECIFICATION tokens, every condition is on them (kinds and texts: they
+  transfer along `Spells`), and the expected events are a function of the actual parts of the block
+  (`c07v_compSpec … F`: the actual block is `marker ms name { Q }`, its parts spell the specified ones, the events are
+  `F` of the actual parts — labels are byte offsets of the document).  Each conclusion is the hypothesis `hB` of
+  `C07_planted_document`.  `Lemmas/DiagPlaceDocName.lean`. -/
+
+/-- **Instance: modifiers planted in a document** (`@&&x{}`, `#@x{}`, `#&&x{}`; plain modifier tokens, a name showing
+    a non-blank character in a plain token, no alias separator, blank braces, not followed by `(`).
+    * ingredient: EXACTLY one `duplicate-modifier` (error, parse; the span of all the actual modifier tokens) per
+      modifier token repeating an earlier one, then the ingredient with the accumulated flags (`c07v_dupIngrF`);
+    * cookware: the same, then `cookware-recipe-modifier` on the first `@` iff there is one, then the item
+      (`c07v_cwModsF`). -/
+theorem C07_planted_document_modifiers (env : Env) (pre post : List SegX) (tmS : Tok) (msS nameS : List Tok)
+    (tobS : Tok) (QS : List Tok) (tcbS : Tok) (hs : SimpleMods msS) (hQ : ∀ t ∈ QS, isPadK t = true)
+    (halias : env.ext.has Gen.EXT_COMPONENT_ALIAS = false ∨ ∀ t ∈ nameS, t.kind ≠ .or)
+    (hname : ∃ t ∈ nameS, plainKind t.kind = true ∧ NBs env.cs t.text) :
+    (PlShape env.ext .at tmS msS nameS tobS QS tcbS (post.flatMap SegX.spell) →
+      ∀ (T tpre tB tpost : List Tok), T = tpre ++ (tB ++ tpost) → Spells tpre (pre.flatMap SegX.spell) →
+        Spells tB (c07p_comp tmS msS nameS tobS QS tcbS) → Spells tpost (post.flatMap SegX.spell) →
+        RunAt (baseOff T) T →
+        PlPieceAt (α := α) T env.cs env.ext tpre ⟨tB, c07v_compSpec msS nameS QS tB (c07v_dupIngrF T tpre)⟩) ∧
+    (PlShape env.ext .hash tmS msS nameS tobS QS tcbS (post.flatMap SegX.spell) →
+      ∀ (T tpre tB tpost : List Tok), T = tpre ++ (tB ++ tpost) → Spells tpre (pre.flatMap SegX.spell) →
+        Spells tB (c07p_comp tmS msS nameS tobS QS tcbS) → Spells tpost (post.flatMap SegX.spell) →
+        RunAt (baseOff T) T →
+        PlPieceAt (α := α) T env.cs env.ext tpre ⟨tB, c07v_compSpec msS nameS QS tB (c07v_cwModsF T tpre)⟩) :=
+  ⟨fun sh T tpre tB tpost hT _ hsB hpost hrun =>
+      c07v_dup_ingr_pieceAt env.cs env.ext tmS msS nameS tobS QS tcbS _ T tpre tB tpost sh hs hQ halias hname hT hsB
+        hpost hrun,
+   fun sh T tpre tB tpost hT _ hsB hpost hrun =>
+      c07v_cw_mods_pieceAt env.cs env.ext tmS msS nameS tobS QS tcbS _ T tpre tB tpost sh hs hQ halias hname hT hsB
+        hpost hrun⟩
+
+/-- **Instance: the empty-name family planted in a document** (name tokens that are padding only — none, spaces, block
+    comments —, no alias separator, not followed by `(`).
+    * `@{}` (no modifiers, blank braces): EXACTLY `empty-name:ingredient` (error, parse; the span of the blank name
+      text at the byte offset after the actual `@`), then the ingredient (`c07v_emptyNameIngrF`);
+    * `# ms {}` (plain modifier tokens, blank braces): `empty-name:cookware`, one `duplicate-modifier` per repeated
+      modifier token, `cookware-recipe-modifier` iff `@` is among them, then the item (`c07v_emptyNameCwF`);
+    * `@{Q}` / `#{Q}` (no modifiers), for ANY reading `l` / `R` of the quantity tokens that holds on every token list
+      spelling them: `empty-name:*` FIRST, then `l Q` (cookware: then `cookware-unit` iff the quantity read has a
+      unit), then the component carrying the quantity read (`c07v_emptyNameIngrQF`, `c07v_emptyNameCwQF`). -/
+theorem C07_planted_document_empty_name_family (env : Env) (pre post : List SegX) (tmS : Tok) (nameS : List Tok)
+    (tobS : Tok) (QS : List Tok) (tcbS : Tok)
+    (halias : env.ext.has Gen.EXT_COMPONENT_ALIAS = false ∨ ∀ t ∈ nameS, t.kind ≠ .or)
+    (hname : padOK env.cs nameS = true) :
+    ((∀ t ∈ QS, isPadK t = true) →
+      (PlShape env.ext .at tmS [] nameS tobS QS tcbS (post.flatMap SegX.spell) →
+        ∀ (T tpre tB tpost : List Tok), T = tpre ++ (tB ++ tpost) → Spells tpre (pre.flatMap SegX.spell) →
+          Spells tB (c07p_comp tmS [] nameS tobS QS tcbS) → Spells tpost (post.flatMap SegX.spell) →
+          RunAt (baseOff T) T →
+          PlPieceAt (α := α) T env.cs env.ext tpre ⟨tB, c07v_compSpec [] nameS QS tB (c07v_emptyNameIngrF T tpre)⟩) ∧
+      (∀ msS : List Tok, SimpleMods msS →
+        PlShape env.ext .hash tmS msS nameS tobS QS tcbS (post.flatMap SegX.spell) →
+        ∀ (T tpre tB tpost : List Tok), T = tpre ++ (tB ++ tpost) → Spells tpre (pre.flatMap SegX.spell) →
+          Spells tB (c07p_comp tmS msS nameS tobS QS tcbS) → Spells tpost (post.flatMap SegX.spell) →
+          RunAt (baseOff T) T →
+          PlPieceAt (α := α) T env.cs env.ext tpre ⟨tB, c07v_compSpec msS nameS QS tB (c07v_emptyNameCwF T tpre)⟩)) ∧
+    (∀ (l : List Tok → List (Ev α)) (R : List Tok → ParsedQuantity α → Prop), (∃ t ∈ QS, isPadK t = false) →
+      (∀ Q, Spells Q QS → ∀ sq : BP α, sq.cs = env.cs → sq.ext = env.ext →
+        Sat (parseQuantity (α := α) Q) sq (fun r s' => Pushed (l Q) sq s' ∧ R Q r)) →
+      (PlShape env.ext .at tmS [] nameS tobS QS tcbS (post.flatMap SegX.spell) →
+        ∀ (T tpre tB tpost : List Tok), T = tpre ++ (tB ++ tpost) → Spells tpre (pre.flatMap SegX.spell) →
+          Spells tB (c07p_comp tmS [] nameS tobS QS tcbS) → Spells tpost (post.flatMap SegX.spell) →
+          RunAt (baseOff T) T →
+          PlPieceAt (α := α) T env.cs env.ext tpre
+            ⟨tB, c07v_compSpec [] nameS QS tB (c07v_emptyNameIngrQF T tpre l R)⟩) ∧
+      (PlShape env.ext .hash tmS [] nameS tobS QS tcbS (post.flatMap SegX.spell) →
+        ∀ (T tpre tB tpost : List Tok), T = tpre ++ (tB ++ tpost) → Spells tpre (pre.flatMap SegX.spell) →
+          Spells tB (c07p_comp tmS [] nameS tobS QS tcbS) → Spells tpost (post.flatMap SegX.spell) →
+          RunAt (baseOff T) T →
+          PlPieceAt (α := α) T env.cs env.ext tpre
+            ⟨tB, c07v_compSpec [] nameS QS tB (c07v_emptyNameCwQF T tpre l R)⟩)) :=
+  ⟨fun hQ =>
+    ⟨fun sh T tpre tB tpost hT _ hsB hpost hrun =>
+        c07v_empty_name_ingr_pieceAt env.cs env.ext tmS nameS tobS QS tcbS _ T tpre tB tpost sh hQ halias hname hT hsB
+          hpost hrun,
+     fun msS hs sh T tpre tB tpost hT _ hsB hpost hrun =>
+        c07v_empty_name_cw_pieceAt env.cs env.ext tmS msS nameS tobS QS tcbS _ T tpre tB tpost sh hs hQ halias hname hT
+          hsB hpost hrun⟩,
+   fun l R hne hQ =>
+    ⟨fun sh T tpre tB tpost hT _ hsB hpost hrun =>
+        c07v_empty_name_ingr_qty_pieceAt env.cs env.ext tmS nameS tobS QS tcbS _ T tpre tB tpost sh halias hname hne l R
+          hQ hT hsB hpost hrun,
+     fun sh T tpre tB tpost hT _ hsB hpost hrun =>
+        c07v_empty_name_cw_qty_pieceAt env.cs env.ext tmS nameS tobS QS tcbS _ T tpre tB tpost sh halias hname hne l R
+          hQ hT hsB hpost hrun⟩⟩
+
+/-- **Instance: alias errors planted in a document** (`@a|b|c{}`, `@a|{}`, `#a|b|c{}`, `@|x{}`, `#|x{}`; COMPONENT_ALIAS
+    on; the first `|` of the SPECIFIED name tokens at index `i`; plain modifier tokens, blank braces, not followed by
+    `(`).  `nameT` = the actual name tokens:
+    * a name showing a non-blank character in a plain token before the `|`: EXACTLY `aliasEvs` (`multiple-aliases:*`
+      from the first `|` to the end of the name tokens iff another `|` follows, else `empty-alias:*` on the `|` iff the
+      alias text is blank), one `duplicate-modifier` per repeated modifier token (cookware:
+      `cookware-recipe-modifier` iff `@` is among them), then the component named by the tokens before the `|`
+      (`c07v_aliasIngrF`, `c07v_aliasCwF`);
+    * padding only before the `|`: `aliasEvs`, then `empty-name:*` on the blank text before the `|`, then the modifier
+      errors, then the component (`c07v_enAliasIngrF`, `c07v_enAliasCwF`). -/
+theorem C07_planted_document_alias_errors (env : Env) (pre post : List SegX) (tmS : Tok) (msS nameS : List Tok)
+    (tobS : Tok) (QS : List Tok) (tcbS : Tok) (i : Nat) (hs : SimpleMods msS) (hQ : ∀ t ∈ QS, isPadK t = true)
+    (he : env.ext.has Gen.EXT_COMPONENT_ALIAS = true) (hi : nameS.findIdx? (fun t => t.kind == .or) = some i)
+    (T tpre tB tpost : List Tok) (hT : T = tpre ++ (tB ++ tpost))
+    (hsB : Spells tB (c07p_comp tmS msS nameS tobS QS tcbS)) (hpost : Spells tpost (post.flatMap SegX.spell))
+    (hrun : RunAt (baseOff T) T) :
+    ((∃ t ∈ nameS.take i, plainKind t.kind = true ∧ NBs env.cs t.text) →
+      (PlShape env.ext .at tmS msS nameS tobS QS tcbS (post.flatMap SegX.spell) →
+        PlPieceAt (α := α) T env.cs env.ext tpre
+          ⟨tB, c07v_compSpec msS nameS QS tB (c07v_aliasIngrF env.cs i T tpre)⟩) ∧
+      (PlShape env.ext .hash tmS msS nameS tobS QS tcbS (post.flatMap SegX.spell) →
+        PlPieceAt (α := α) T env.cs env.ext tpre
+          ⟨tB, c07v_compSpec msS nameS QS tB (c07v_aliasCwF env.cs i T tpre)⟩)) ∧
+    (padOK env.cs (nameS.take i) = true →
+      (PlShape env.ext .at tmS msS nameS tobS QS tcbS (post.flatMap SegX.spell) →
+        PlPieceAt (α := α) T env.cs env.ext tpre
+          ⟨tB, c07v_compSpec msS nameS QS tB (c07v_enAliasIngrF env.cs i T tpre)⟩) ∧
+      (PlShape env.ext .hash tmS msS nameS tobS QS tcbS (post.flatMap SegX.spell) →
+        PlPieceAt (α := α) T env.cs env.ext tpre
+          ⟨tB, c07v_compSpec msS nameS QS tB (c07v_enAliasCwF env.cs i T tpre)⟩)) :=
+  c07v_alias_pieceAt env.cs env.ext tmS msS nameS tobS QS tcbS _ T tpre tB tpost i hs hQ he hi hT hsB hpost hrun
+
+/-! non-vacuity.  (a) the document `>> source: grandma` / blank / `Use @{} now` (every extension off): all hypotheses of
+    `C07_planted_document` decided, `hB` from the first clause of `C07_planted_document_empty_name_family`; the
+    evaluated report is exactly `empty-name:ingredient` ⟨25,25⟩, no output.  (b) `Use @&&x{} now`, `Use #@&&x{} now`
+    under COMPONENT_MODIFIERS, (c) `Use @a|b|c{} now` under COMPONENT_ALIAS, (d) `Use @{1/0} now` (the reading of
+    `C07_zero_denominator_reading`: `empty-name:ingredient` FIRST, then `division-by-zero`): instances applied to the
+    specification tokens, reports evaluated. -/
+def C07_vB1 : List Tok := c07p_comp (tk .at ['@']) [] [] (tk .openBrace ['{']) [] (tk .closeBrace ['}'])
+def C07_vSpec1 : List Tok → List Tok → List Tok → List (Ev Rat) → Prop :=
+  fun T tpre tB => c07v_compSpec [] [] [] tB (c07v_emptyNameIngrF T tpre)
+def C07_vDoc1 : List (PlBlock Rat × List Tok) :=
+  plantedDoc toyCharSpec C07_dDocA [] C07_plPre' C07_plPost C07_vB1 [C01_nl] C07_vSpec1
+example : render ([] ++ plDocSpec C07_vDoc1) = ">> source: grandma\n\nUse @{} now\n".toList := by decide
+example : ∃ (T tpre tB tpost : List Tok) (evsB : List (Ev Rat)),
+    T <:+: lex toyCharSpec (render ([] ++ plDocSpec C07_vDoc1)) ∧ T = tpre ++ (tB ++ tpost) ∧
+    Spells tB C07_vB1 ∧ C07_vSpec1 T tpre tB evsB ∧
+    (parseRecipe (α := Rat) C07_coreEnv (render ([] ++ plDocSpec C07_vDoc1))).diags.toList.filter
+      (fun d => d.stage == .parse) = evDiags evsB := by
+  obtain ⟨T, tpre, tB, tpost, evsB, h1, h2, -, h4, -, h6, h7, -⟩ :=
+    C07_planted_document (α := Rat) C07_coreEnv [] C07_dDocA [] C07_plPre' C07_plPost C07_vB1 [C01_nl] C07_vSpec1
+      (by decide) (by decide) (by intro d h; cases h) (by decide)
+      (((C07_planted_document_empty_name_family (α := Rat) C07_coreEnv C07_plPre' C07_plPost (tk .at ['@']) []
+        (tk .openBrace ['{']) [] (tk .closeBrace ['}']) (Or.inl rfl) rfl).1 (by intro t h; cases h)).1
+        ⟨rfl, Or.inl ⟨rfl, rfl⟩, by decide, rfl, by decide, rfl,
+          by intro t h; simp [C07_plPost, SegX.spell] at h; subst h; decide⟩)
+      (by decide) (by decide) (by decide)
+  exact ⟨T, tpre, tB, tpost, evsB, h1, h2, h4, h6, h7⟩
+example : ((parseRecipe (α := Rat) C07_coreEnv (render ([] ++ plDocSpec C07_vDoc1))).diags.toList,
+      (parseRecipe (α := Rat) C07_coreEnv (render ([] ++ plDocSpec C07_vDoc1))).output.isSome) =
+    ([⟨.error, .parse, "empty-name:ingredient", [⟨25, 25⟩]⟩], false) := by decide +kernel
+def C07_vEnvM : Env := { C07_coreEnv with ext := ⟨Gen.EXT_COMPONENT_MODIFIERS⟩ }
+def C07_vEnvA : Env := { C07_coreEnv with ext := ⟨Gen.EXT_COMPONENT_ALIAS⟩ }
+example := (C07_planted_document_modifiers (α := Rat) C07_vEnvM C07_plPre' C07_plPost (tk .at ['@'])
+    [tk .and ['&'], tk .and ['&']] C07_xName (tk .openBrace ['{']) [] (tk .closeBrace ['}'])
+    (by intro t h; simp at h; subst h; decide) (by intro t h; cases h) (Or.inl rfl) C07_xNameNB).1
+    ⟨rfl, Or.inr ⟨rfl, by intro t h; simp at h; subst h; decide, by intro x h; simp [C07_xName] at h; subst h; decide⟩,
+      by decide, rfl, by decide, rfl, by intro t h; simp [C07_plPost, SegX.spell] at h; subst h; decide⟩
+example := (C07_planted_document_modifiers (α := Rat) C07_vEnvM C07_plPre' C07_plPost (tk .hash ['#'])
+    [tk .at ['@'], tk .and ['&'], tk .and ['&']] C07_xName (tk .openBrace ['{']) [] (tk .closeBrace ['}'])
+    (by intro t h; simp at h; rcases h with rfl | rfl <;> decide) (by intro t h; cases h) (Or.inl rfl) C07_xNameNB).2
+    ⟨rfl, Or.inr ⟨rfl, by intro t h; simp at h; rcases h with rfl | rfl <;> decide,
+        by intro x h; simp [C07_xName] at h; subst h; decide⟩,
+      by decide, rfl, by decide, rfl, by intro t h; simp [C07_plPost, SegX.spell] at h; subst h; decide⟩
+example : (parseRecipe (α := Rat) C07_vEnvM ">> source: grandma\n\nUse @&&x{} now\n".toList).diags.toList =
+    [⟨.error, .parse, "duplicate-modifier", [⟨25, 27⟩]⟩] := by decide +kernel
+example : (parseRecipe (α := Rat) C07_vEnvM ">> source: grandma\n\nUse #@&&x{} now\n".toList).diags.toList =
+    [⟨.error, .parse, "duplicate-modifier", [⟨25, 28⟩]⟩, ⟨.error, .parse, "cookware-recipe-modifier", [⟨25, 26⟩]⟩] := by
+  decide +kernel
+def C07_vNameA : List Tok := [tk .word ['a'], tk .or ['|'], tk .word ['b'], tk .or ['|'], tk .word ['c']]
+example (T tpre tB tpost : List Tok) (hT : T = tpre ++ (tB ++ tpost))
+    (hsB : Spells tB (c07p_comp (tk .at ['@']) [] C07_vNameA (tk .openBrace ['{']) [] (tk .closeBrace ['}'])))
+    (hpost : Spells tpost (C07_plPost.flatMap SegX.spell)) (hrun : RunAt (baseOff T) T) :=
+  ((C07_planted_document_alias_errors (α := Rat) C07_vEnvA C07_plPre' C07_plPost (tk .at ['@']) [] C07_vNameA
+    (tk .openBrace ['{']) [] (tk .closeBrace ['}']) 1 (by intro t h; cases h) (by intro t h; cases h) rfl (by decide)
+    T tpre tB tpost hT hsB hpost hrun).1 ⟨tk .word ['a'], by decide, rfl, 'a', by simp [tk], by decide⟩).1
+    ⟨rfl, Or.inl ⟨rfl, rfl⟩, by decide, rfl, by decide, rfl,
+      by intro t h; simp [C07_plPost, SegX.spell] at h; subst h; decide⟩
+example : (parseRecipe (α := Rat) C07_vEnvA ">> source: grandma\n\nUse @a|b|c{} now\n".toList).diags.toList =
+    [⟨.error, .parse, "multiple-aliases:ingredient", [⟨26, 30⟩]⟩] := by decide +kernel
+example := ((C07_planted_document_empty_name_family (α := Rat) C07_coreEnv C07_plPre' C07_plPost (tk .at ['@']) []
+    (tk .openBrace ['{']) C07_xQ1 (tk .closeBrace ['}']) (Or.inl rfl) rfl).2 C07_zeroDenEvs
+    (fun _ q => q.quantity.val.unit = none ∧ q.unitSep = none) ⟨tk .int ['1'], by decide, rfl⟩
+    (C07_zero_denominator_reading toyCharSpec ⟨0⟩ _ _ _ rfl rfl rfl (by decide) (by decide))).1
+    ⟨rfl, Or.inl ⟨rfl, rfl⟩, by decide, rfl, by decide, rfl,
+      by intro t h; simp [C07_plPost, SegX.spell] at h; subst h; decide⟩
+example : (parseRecipe (α := Rat) C07_coreEnv ">> source: grandma\n\nUse @{1/0} now\n".toList).diags.toList =
+    [⟨.error, .parse, "empty-name:ingredient", [⟨25, 25⟩]⟩, ⟨.error, .parse, "division-by-zero", [⟨26, 29⟩]⟩] := by
+  decide +kernel
+
+
+/-! ### The intermediate-reference syntax errors planted in a document (wave 10) -/
+
+/-- the events of `@&( inner )name{}` whose group is rejected with `ev` (a function of the ACTUAL `(`, inner tokens,
+    `)`): exactly that event, then the ingredient with the `&` flag and no intermediate data -/
+def C07_interF (T A : List Tok) (ev : Tok → List Tok → Tok → Ev α) :
+    Tok → Tok → Tok → List Tok → Tok → List Tok → Tok → List Tok → Tok → List (Ev α) → Prop :=
+  fun tm tand top inner tcp nameT tob Q tcb evs =>
+    evs = [ev top inner tcp, C07_interIngr T A tm tand top inner tcp nameT tob Q tcb]
+
+/-- the first / second non-blank token of the actual group -/
+def C07_nb0 (inner : List Tok) : Tok := (inner.filter nonBlankTok).head?.getD dummyTok
+def C07_nb1 (inner : List Tok) : Tok := ((inner.filter nonBlankTok).drop 1).head?.getD dummyTok
+
+/-- **Instance: the intermediate-reference syntax errors planted in a document** (`@&()x{}`, `@&(~=1)x{}`,
+    `@&(99999)x{}`, `@&(-1)x{}`, `@&(x)y{}`; COMPONENT_MODIFIERS and INTERMEDIATE_PREPARATIONS on).  The construct is
+    given by SPECIFICATION tokens `@ & ( innerS ) nameS { QS }` (`PlShapeI` on them; a name showing a non-blank
+    character in a plain token, no alias separator, blank braces, not followed by `(`).  On every actual block
+    spelling the step the construct is a piece whose events are EXACTLY one error (error, parse), then the ingredient
+    with the `&` flag and no intermediate data on the byte range of the construct (`c07v_interSpec … C07_interF`):
+    * generic: whatever event `ev top inner tcp` the data reader pushes on rejecting EVERY group spelling the
+      specified one;
+    * `fS` = the non-blank tokens of `innerS`: `fS = []` ⇒ `inter-ref-empty` (the actual group `( … )`);
+      `fS = [~, =, int]` ⇒ `inter-ref-wrong-order` (the actual `~` and `=`); `fS = [int]` above 32767 ⇒ `int-parse`
+      (the actual number); `fS = [±, int]` ⇒ `inter-ref-sign` (the actual sign); `fS = [x]`, `x` not an integer ⇒
+      `inter-ref-invalid` (the span of the actual inner tokens).  Labels are byte offsets of the document.
+    PARTIAL exactly as `C07_planted_inter_ref_family_partial`: the group ALONE, no quantity, ingredient only; missing:
+    plain modifiers around the group, a quantity, `inter-ref-not-allowed:cookware`. -/
+theorem C07_planted_document_inter_ref_family_partial (env : Env) (pre post : List SegX) (tmS tandS topS : Tok)
+    (innerS : List Tok) (tcpS : Tok) (nameS : List Tok) (tobS : Tok) (QS : List Tok) (tcbS : Tok)
+    (sh : PlShapeI env.ext .at tmS [] tandS topS innerS tcpS [] nameS tobS QS tcbS (post.flatMap SegX.spell))
+    (hQ : ∀ t ∈ QS, isPadK t = true)
+    (halias : env.ext.has Gen.EXT_COMPONENT_ALIAS = false ∨ ∀ t ∈ nameS, t.kind ≠ .or)
+    (hname : ∃ t ∈ nameS, plainKind t.kind = true ∧ NBs env.cs t.text)
+    (T tpre tB tpost : List Tok) (hT : T = tpre ++ (tB ++ tpost))
+    (hsB : Spells tB (c07p_comp tmS (c07i_mods [] tandS topS innerS tcpS []) nameS tobS QS tcbS))
+    (hpost : Spells tpost (post.flatMap SegX.spell)) (hrun : RunAt (baseOff T) T) :
+    (∀ ev : Tok → List Tok → Tok → Ev α,
+      (∀ (top : Tok) (inner : List Tok) (tcp : Tok), top.kind = .openParen → tcp.kind = .closeParen →
+        (∀ t ∈ inner, t.kind ≠ .closeParen) → Spells inner innerS → ∀ s0 : BP α,
+        parseInterRef (α := α) (top :: (inner ++ tcp :: [])) s0 =
+          ((none, []), { s0 with evs := s0.evs.push (ev top inner tcp) })) →
+      PlPieceAt (α := α) T env.cs env.ext tpre ⟨tB, c07v_interSpec innerS nameS QS tB (C07_interF T tpre ev)⟩) ∧
+    (innerS.filter nonBlankTok = [] →
+      PlPieceAt (α := α) T env.cs env.ext tpre ⟨tB, c07v_interSpec innerS nameS QS tB (C07_interF T tpre
+        (fun top inner tcp => .error ⟨.error, .parse, "inter-ref-empty", [tokensSpan (top :: (inner ++ [tcp]))]⟩))⟩) ∧
+    (∀ a b i, innerS.filter nonBlankTok = [a, b, i] → a.kind = .tilde → b.kind = .eq → i.kind = .int →
+      PlPieceAt (α := α) T env.cs env.ext tpre ⟨tB, c07v_interSpec innerS nameS QS tB (C07_interF T tpre
+        (fun _ inner _ => .error ⟨.error, .parse, "inter-ref-wrong-order",
+          [⟨(C07_nb0 inner).start, (C07_nb0 inner).stop⟩, ⟨(C07_nb1 inner).start, (C07_nb1 inner).stop⟩]⟩))⟩) ∧
+    (∀ i, innerS.filter nonBlankTok = [i] → i.kind = .int → 32767 < digitsToNat i.text →
+      PlPieceAt (α := α) T env.cs env.ext tpre ⟨tB, c07v_interSpec innerS nameS QS tB (C07_interF T tpre
+        (fun _ inner _ => .error ⟨.error, .parse, "int-parse", [⟨(C07_nb0 inner).start, (C07_nb0 inner).stop⟩]⟩))⟩) ∧
+    (∀ sg i, innerS.filter nonBlankTok = [sg, i] → (sg.kind = .minus ∨ sg.kind = .plus) → i.kind = .int →
+      PlPieceAt (α := α) T env.cs env.ext tpre ⟨tB, c07v_interSpec innerS nameS QS tB (C07_interF T tpre
+        (fun _ inner _ => .error ⟨.error, .parse, "inter-ref-sign",
+          [⟨(C07_nb0 inner).start, (C07_nb0 inner).stop⟩]⟩))⟩) ∧
+    (∀ x, innerS.filter nonBlankTok = [x] → x.kind ≠ .int →
+      PlPieceAt (α := α) T env.cs env.ext tpre ⟨tB, c07v_interSpec innerS nameS QS tB (C07_interF T tpre
+        (fun _ inner _ => .error ⟨.error, .parse, "inter-ref-invalid", [tokensSpan inner]⟩))⟩) := by
+  obtain ⟨tm, tand, top, inner, tcp, nameT, tob, Q, tcb, rfl, ki, k3, k5, sh'⟩ := c07v_inter_spells_inv sh hsB hpost
+  have hw : WF T := ⟨by rw [hT]; simp [c07p_comp], hrun⟩
+  have hf := c07v_filter_transfer ki
+  have g : ∀ ev : Tok → List Tok → Tok → Ev α,
+      (∀ s0 : BP α, parseInterRef (α := α) (top :: (inner ++ tcp :: [])) s0 =
+        ((none, []), { s0 with evs := s0.evs.push (ev top inner tcp) })) →
+      PlPieceAt (α := α) T env.cs env.ext tpre ⟨c07p_comp tm (c07i_mods [] tand top inner tcp []) nameT tob Q tcb,
+        c07v_interSpec innerS nameS QS (c07p_comp tm (c07i_mods [] tand top inner tcp []) nameT tob Q tcb)
+          (C07_interF T tpre ev)⟩ := fun ev hev =>
+    ((C07_planted_inter_ref_family_partial (α := α) T tpre tpost env.cs env.ext hw tm tand top inner tcp nameT tob Q
+      tcb hT sh' (c07v_pad_transfer k5 hQ) (c07x_alias_transfer k3 halias) (c07x_name_transfer k3 hname _)).1
+      (ev top inner tcp) hev).mono
+      (fun evs he => ⟨tm, tand, top, inner, tcp, nameT, tob, Q, tcb, rfl, sh'.hop, sh'.hcp, ki, k3, k5, he⟩)
+  refine ⟨fun ev hev => g ev (hev top inner tcp sh'.hop sh'.hcp sh'.hin ki), fun h => ?_, fun a b i h h1 h2 h3 => ?_,
+    fun i h h1 h2 => ?_, fun sg i h h1 h2 => ?_, fun x h h1 => ?_⟩
+  · rw [h] at hf
+    exact g _ (fun s0 => parseInterRef_empty top tcp inner [] s0 sh'.hop sh'.hcp sh'.hin hf.nil_inv)
+  · rw [h] at hf
+    obtain ⟨a', r1, e1, ka, -, hf1⟩ := hf.cons_inv
+    obtain ⟨b', r2, rfl, kb, -, hf2⟩ := hf1.cons_inv
+    obtain ⟨i', rfl, ki', -⟩ := hf2.single_inv
+    refine g _ (fun s0 => ?_)
+    simp only [C07_nb0, C07_nb1, e1, List.head?_cons, Option.getD_some, List.drop_succ_cons, List.drop_zero]
+    exact parseInterRef_wrong_order (α := α) top tcp inner [] s0 sh'.hop sh'.hcp sh'.hin a' b' i' e1 (ka.trans h1)
+      (kb.trans h2) (ki'.trans h3)
+  · rw [h] at hf
+    obtain ⟨i', e1, ki', ti⟩ := hf.single_inv
+    refine g _ (fun s0 => ?_)
+    simp only [C07_nb0, e1, List.head?_cons, Option.getD_some]
+    exact parseInterRef_too_large top tcp inner [] s0 sh'.hop sh'.hcp sh'.hin i' e1 (ki'.trans h1) (by rw [ti]; exact h2)
+  · rw [h] at hf
+    obtain ⟨sg', r1, e1, ks, -, hf1⟩ := hf.cons_inv
+    obtain ⟨i', rfl, ki', -⟩ := hf1.single_inv
+    refine g _ (fun s0 => ?_)
+    simp only [C07_nb0, e1, List.head?_cons, Option.getD_some]
+    exact parseInterRef_signed top tcp inner [] s0 sh'.hop sh'.hcp sh'.hin sg' i' e1 (by rw [ks]; exact h1)
+      (ki'.trans h2)
+  · rw [h] at hf
+    obtain ⟨x', e1, kx, -⟩ := hf.single_inv
+    exact g _ (fun s0 => parseInterRef_invalid top tcp inner [] s0 sh'.hop sh'.hcp sh'.hin x' e1 (by rw [kx]; exact h1))
+
+/-! non-vacuity: `Use @&(x)y{} now` under COMPONENT_MODIFIERS + INTERMEDIATE_PREPARATIONS given by specification tokens:
+    the hypotheses hold (last clause: the group holds one word); in the document `>> source: grandma` / blank / that
+    step the evaluated report is exactly `inter-ref-invalid` ⟨27,28⟩. -/
+def C07_vEnvI : Env := { C07_coreEnv with ext := ⟨Gen.EXT_COMPONENT_MODIFIERS ||| Gen.EXT_INTERMEDIATE_PREPARATIONS⟩ }
+theorem C07_vShapeI : PlShapeI C07_vEnvI.ext .at (tk .at ['@']) [] (tk .and ['&']) (tk .openParen ['('])
+    [tk .word ['x']] (tk .closeParen [')']) [] [tk .word ['y']] (tk .openBrace ['{']) [] (tk .closeBrace ['}'])
+    (C07_plPost.flatMap SegX.spell) :=
+  ⟨rfl, by decide, by decide, (by intro t h; cases h), rfl, rfl, (by intro t h; simp at h; subst h; decide), rfl,
+   (by intro t h; cases h), (by intro t h; simp at h; subst h; decide), (by intro t h; simp at h; subst h; decide),
+   rfl, (by intro t h; cases h), rfl, (by intro t h; simp [C07_plPost, SegX.spell] at h; subst h; decide)⟩
+example (T tpre tB tpost : List Tok) (hT : T = tpre ++ (tB ++ tpost))
+    (hsB : Spells tB (c07p_comp (tk .at ['@']) (c07i_mods [] (tk .and ['&']) (tk .openParen ['(']) [tk .word ['x']]
+      (tk .closeParen [')']) []) [tk .word ['y']] (tk .openBrace ['{']) [] (tk .closeBrace ['}'])))
+    (hpost : Spells tpost (C07_plPost.flatMap SegX.spell)) (hrun : RunAt (baseOff T) T) :=
+  (C07_planted_document_inter_ref_family_partial (α := Rat) C07_vEnvI C07_plPre' C07_plPost _ _ _ _ _ _ _ _ _
+    C07_vShapeI (by intro t h; cases h) (Or.inl (by decide))
+    ⟨tk .word ['y'], by simp, rfl, 'y', by simp [tk], by decide⟩ T tpre tB tpost hT hsB hpost hrun).2.2.2.2.2
+    (tk .word ['x']) (by decide) (by decide)
+example : (parseRecipe (α := Rat) C07_vEnvI ">> source: grandma\n\nUse @&(x)y{} now\n".toList).diags.toList =
+    [⟨.error, .parse, "inter-ref-invalid", [⟨27, 28⟩]⟩] := by decide +kernel
+
+/-! ### `invalid-single-word-name` as a placement piece, step and document level (wave 10) -/
+
+/-- **A marker that starts no component, wherever it stands** (`@!x`, `#(`, `~,`, `@ x`; completes
+    `C07_invalid_single_word_name_then_text` by running the text branch).  `tm` is `@` / `#` / `~`; the tokens `tl`
+    after it hold no `{` and no marker; a marker or the end of the block follows them; the token after `tm` (if any)
+    is neither a word / number token nor a modifier character.  From every state at that position ONE iteration of
+    the step loop pushes EXACTLY: the warning `invalid-single-word-name` (warning, parse; labelled with the position
+    right after the marker — inside the construct) iff a token other than whitespace follows the marker; then ONE
+    text event made of the marker and `tl` (everything up to the next marker).  Every extension set. -/
+theorem C07_planted_single_word (T A rest : List Tok) (cs : CharSpec) (e : Ext) (hw : WF T) (tm : Tok)
+    (tl : List Tok) (hT : T = A ++ ((tm :: tl) ++ rest))
+    (hk : tm.kind = .at ∨ tm.kind = .hash ∨ tm.kind = .tilde)
+    (hl : ∀ t ∈ tl, (t.kind == .openBrace || isMarker t.kind) = false)
+    (hrest : ∀ t, rest.head? = some t → isMarker t.kind = true)
+    (h0 : ∀ t, (tl ++ rest).head? = some t → isModStart t.kind = false ∧ isShortK t.kind = false)
+    (hvis : (tm :: tl).flatMap vis ≠ []) :
+    PlPieceAt (α := α) T cs e A ⟨tm :: tl, fun evs =>
+      evs = c07s_swEvs T A (tl ++ rest) ++ [.text (buildText (offAt T A.length) (tm :: tl))]⟩ :=
+  c07s_single_word_piece T A rest cs e tm tl hT hw hk hl hrest h0 hvis
+
+/-- **Instance: a marker that starts no component, planted in a document.**  The construct is given by SPECIFICATION
+    tokens `tmS :: tlS` (conditions as in `C07_planted_single_word`, on them and on the specified tokens after the
+    construct).  On every actual block spelling the step the construct is a piece: EXACTLY the warning
+    `invalid-single-word-name` at the byte offset after the actual marker iff the specified token after the marker is
+    not whitespace, then one text event made of the construct's actual tokens.  This is the hypothesis `hB` of
+    `C07_planted_document`; no error event, so the document HAS output. -/
+theorem C07_planted_document_single_word (env : Env) (pre post : List SegX) (tmS : Tok) (tlS : List Tok)
+    (hk : tmS.kind = .at ∨ tmS.kind = .hash ∨ tmS.kind = .tilde)
+    (hl : ∀ t ∈ tlS, (t.kind == .openBrace || isMarker t.kind) = false)
+    (hrest : ∀ t, (post.flatMap SegX.spell).head? = some t → isMarker t.kind = true)
+    (h0 : ∀ t, (tlS ++ post.flatMap SegX.spell).head? = some t → isModStart t.kind = false ∧ isShortK t.kind = false)
+    (hvis : (tmS :: tlS).flatMap vis ≠ []) :
+    ∀ (T tpre tB tpost : List Tok), T = tpre ++ (tB ++ tpost) → Spells tpre (pre.flatMap SegX.spell) →
+      Spells tB (tmS :: tlS) → Spells tpost (post.flatMap SegX.spell) → RunAt (baseOff T) T →
+      PlPieceAt (α := α) T env.cs env.ext tpre ⟨tB, fun evs =>
+        evs = c07s_swEvs T tpre (tlS ++ post.flatMap SegX.spell) ++
+          [.text (buildText (offAt T tpre.length) tB)]⟩ :=
+  fun T tpre tB tpost hT _ hsB hpost hrun =>
+    c07s_single_word_pieceAt env.cs env.ext tmS tlS _ hk hl hrest h0 hvis T tpre tB tpost hT hsB hpost hrun
+
+/-! non-vacuity: the document `>> source: grandma` / blank / `Use @!x now` (every extension off; the construct is
+    `@!x now`, nothing after it): all hypotheses of `C07_planted_document` decided, `hB` from the instance; the
+    evaluated report has exactly the parse-stage warning `invalid-single-word-name` ⟨25,25⟩ and there is output. -/
+def C07_sB : List Tok := [tk .at ['@'], tk .punct ['!'], tk .word ['x'], tk .ws [' '], tk .word "now".toList]
+def C07_sSpec : List Tok → List Tok → List Tok → List (Ev Rat) → Prop :=
+  fun T tpre tB evs => evs = c07s_swEvs T tpre ([tk .punct ['!'], tk .word ['x'], tk .ws [' '], tk .word "now".toList]
+    ++ ([] : List SegX).flatMap SegX.spell) ++ [.text (buildText (offAt T tpre.length) tB)]
+def C07_sDoc : List (PlBlock Rat × List Tok) :=
+  plantedDoc toyCharSpec C07_dDocA [] C07_plPre' [] C07_sB [C01_nl] C07_sSpec
+example : render ([] ++ plDocSpec C07_sDoc) = ">> source: grandma\n\nUse @!x now\n".toList := by decide
+example : ∃ (T tpre tB tpost : List Tok) (evsB : List (Ev Rat)),
+    T <:+: lex toyCharSpec (render ([] ++ plDocSpec C07_sDoc)) ∧ T = tpre ++ (tB ++ tpost) ∧
+    Spells tB C07_sB ∧ C07_sSpec T tpre tB evsB ∧
+    (parseRecipe (α := Rat) C07_coreEnv (render ([] ++ plDocSpec C07_sDoc))).diags.toList.filter
+      (fun d => d.stage == .parse) = evDiags evsB ∧
+    (parseRecipe (α := Rat) C07_coreEnv (render ([] ++ plDocSpec C07_sDoc))).output.isSome = true := by
+  obtain ⟨T, tpre, tB, tpost, evsB, h1, h2, -, h4, -, h6, h7, -, h9, -⟩ :=
+    C07_planted_document (α := Rat) C07_coreEnv [] C07_dDocA [] C07_plPre' [] C07_sB [C01_nl] C07_sSpec
+      (by decide) (by decide) (by intro d h; cases h) (by decide)
+      (C07_planted_document_single_word C07_coreEnv C07_plPre' [] (tk .at ['@'])
+        [tk .punct ['!'], tk .word ['x'], tk .ws [' '], tk .word "now".toList] (Or.inl rfl) (by decide)
+        (by intro t h; cases h) (by intro t h; simp at h; subst h; decide) (by decide))
+      (by decide) (by decide) (by decide)
+  refine ⟨T, tpre, tB, tpost, evsB, h1, h2, h4, h6, h7, h9 ?_⟩
+  intro d hd
+  rw [h6] at hd
+  simp [c07s_swEvs] at hd
+example : ((parseRecipe (α := Rat) C07_coreEnv (render ([] ++ plDocSpec C07_sDoc))).diags.toList.filter
+      (fun d => d.stage == .parse)) = [⟨.warning, .parse, "invalid-single-word-name", [⟨25, 25⟩]⟩] := by
+  decide +kernel
+
+/-- **A single-word timer `~name`, wherever it stands and whatever follows it** (`~zt`, `~zt(note)`; the single-word
+    FORM of the timer entries of the catalogue: timer without duration, note on a timer).  `W` are word / number
+    tokens, the token after them is none of these, no `{` lies before the next marker.  From every state at that
+    position ONE iteration of the step loop consumes exactly `~ W` and pushes EXACTLY: the warning
+    `note-not-allowed:timer` iff `(` … `)` follows; then `timer-missing-quantity` (error, parse; the position at the end
+    of the name — there are no braces to point at) under TIMER_REQUIRES_TIME, otherwise
+    `timer-neither-name-nor-quantity` iff the name text is blank; then the timer named `W` on the byte range of `~ W`
+    (quantity: the recovery value iff an error was raised).  No modifier / alias diagnostic is possible in this form. -/
+theorem C07_planted_single_word_timer (T A rest : List Tok) (cs : CharSpec) (e : Ext) (hw : WF T) (tm : Tok)
+    (W : List Tok) (hT : T = A ++ ((tm :: W) ++ rest)) (hk : tm.kind = .tilde)
+    (hW : ∀ t ∈ W, wordKind t.kind = true) (hne : W ≠ [])
+    (hR : ∀ t, rest.head? = some t → wordKind t.kind = false) (hnb : noBraceFirst rest = true) :
+    PlPieceAt (α := α) T cs e A ⟨tm :: W, fun evs =>
+      evs = c07w_noteEvs T (A.length + (tm :: W).length) ++
+        c07w_timerFinishEvs (offAt T (A.length + 1)) ⟨W, none, none⟩ (buildText (offAt T (A.length + 1)) W) cs e ++
+        [.timer ⟨⟨if (buildText (offAt T (A.length + 1)) W).isTextEmpty cs then none
+            else some (buildText (offAt T (A.length + 1)) W),
+          c07w_timerFinishQty (buildText (offAt T (A.length + 1)) W) cs e⟩,
+          ⟨offAt T A.length, offAt T (A.length + (tm :: W).length)⟩⟩]⟩ :=
+  c07s_timer_short_piece T A rest cs e tm W hT hw hk hW hne hR hnb
+
+/-- **Instance: a single-word timer planted in a document.**  The construct is given by SPECIFICATION tokens
+    `~ WS`; the conditions are on them and on the specified tokens after the construct.  On every actual block the
+    construct is a piece with the events of `C07_planted_single_word_timer` on the actual tokens
+    (`c07s_timerShortSpec`): the hypothesis `hB` of `C07_planted_document`. -/
+theorem C07_planted_document_single_word_timer (env : Env) (pre post : List SegX) (tmS : Tok) (WS : List Tok)
+    (hk : tmS.kind = .tilde) (hW : ∀ t ∈ WS, wordKind t.kind = true) (hne : WS ≠ [])
+    (hR : ∀ t, (post.flatMap SegX.spell).head? = some t → wordKind t.kind = false)
+    (hnb : noBraceFirst (post.flatMap SegX.spell) = true) :
+    ∀ (T tpre tB tpost : List Tok), T = tpre ++ (tB ++ tpost) → Spells tpre (pre.flatMap SegX.spell) →
+      Spells tB (tmS :: WS) → Spells tpost (post.flatMap SegX.spell) → RunAt (baseOff T) T →
+      PlPieceAt (α := α) T env.cs env.ext tpre ⟨tB, c07s_timerShortSpec env.cs env.ext WS T tpre tB⟩ :=
+  fun T tpre tB tpost hT _ hsB hpost hrun =>
+    c07s_timer_short_pieceAt env.cs env.ext tmS WS _ hk hW hne hR hnb T tpre tB tpost hT hsB hpost hrun
+
+/-! non-vacuity: the document `>> source: grandma` / blank / `Use ~zt now` under TIMER_REQUIRES_TIME: all hypotheses of
+    `C07_planted_document` decided, `hB` from the instance; evaluated report: exactly `timer-missing-quantity` ⟨27,27⟩
+    (the end of the name), no output; `Use ~zt(a) now`: the note warning first. -/
+def C07_sEnvT : Env := { C07_coreEnv with ext := ⟨Gen.EXT_TIMER_REQUIRES_TIME⟩ }
+def C07_sB2 : List Tok := [tk .tilde ['~'], tk .word "zt".toList]
+def C07_sSpec2 : List Tok → List Tok → List Tok → List (Ev Rat) → Prop :=
+  c07s_timerShortSpec C07_sEnvT.cs C07_sEnvT.ext [tk .word "zt".toList]
+def C07_sDoc2 : List (PlBlock Rat × List Tok) :=
+  plantedDoc toyCharSpec C07_dDocA [] C07_plPre' C07_plPost C07_sB2 [C01_nl] C07_sSpec2
+example : render ([] ++ plDocSpec C07_sDoc2) = ">> source: grandma\n\nUse ~zt now\n".toList := by decide
+example : ∃ (T tpre tB tpost : List Tok) (evsB : List (Ev Rat)),
+    T <:+: lex toyCharSpec (render ([] ++ plDocSpec C07_sDoc2)) ∧ T = tpre ++ (tB ++ tpost) ∧
+    Spells tB C07_sB2 ∧ C07_sSpec2 T tpre tB evsB ∧
+    (parseRecipe (α := Rat) C07_sEnvT (render ([] ++ plDocSpec C07_sDoc2))).diags.toList.filter
+      (fun d => d.stage == .parse) = evDiags evsB := by
+  obtain ⟨T, tpre, tB, tpost, evsB, h1, h2, -, h4, -, h6, h7, -⟩ :=
+    C07_planted_document (α := Rat) C07_sEnvT [] C07_dDocA [] C07_plPre' C07_plPost C07_sB2 [C01_nl] C07_sSpec2
+      (by decide) (by decide) (by intro d h; cases h) (by decide)
+      (C07_planted_document_single_word_timer C07_sEnvT C07_plPre' C07_plPost (tk .tilde ['~'])
+        [tk .word "zt".toList] rfl (by decide) (by decide)
+        (by intro t h; simp [C07_plPost, SegX.spell] at h; subst h; decide) (by decide))
+      (by decide) (by decide) (by decide)
+  exact ⟨T, tpre, tB, tpost, evsB, h1, h2, h4, h6, h7⟩
+example : ((parseRecipe (α := Rat) C07_sEnvT (render ([] ++ plDocSpec C07_sDoc2))).diags.toList,
+      (parseRecipe (α := Rat) C07_sEnvT (render ([] ++ plDocSpec C07_sDoc2))).output.isSome) =
+    ([⟨.error, .parse, "timer-missing-quantity", [⟨27, 27⟩]⟩], false) := by decide +kernel
+example : (parseRecipe (α := Rat) C07_sEnvT ">> source: grandma\n\nUse ~zt(a) now\n".toList).diags.toList =
+    [⟨.warning, .parse, "note-not-allowed:timer", [⟨27, 30⟩, ⟨27, 27⟩]⟩,
+     ⟨.error, .parse, "timer-missing-quantity", [⟨27, 27⟩]⟩] := by decide +kernel
+
+/-- **Single-word ingredient / cookware with modifier tokens, wherever it stands** (`@&&salt`, `#@pot`, `#&&pot`; the
+    single-word FORM of the entries duplicate modifier / recipe modifier on cookware).  Marker, plain modifier tokens
+    `ms` (none when COMPONENT_MODIFIERS is off), word / number tokens `W` showing a non-blank character; the token after
+    them is no word / number token and no `(`; no `{` before the next marker.  One iteration of the step loop consumes
+    exactly `marker ms W` and pushes EXACTLY one `duplicate-modifier` (error, parse; the span of the modifier tokens)
+    per modifier token repeating an earlier one, for cookware then `cookware-recipe-modifier` on the first `@` iff
+    there is one, then the component named `W` with the accumulated flags on the byte range of the construct. -/
+theorem C07_planted_single_word_modifiers (T A rest : List Tok) (cs : CharSpec) (e : Ext) (hw : WF T) (tm : Tok)
+    (ms W : List Tok) (hT : T = A ++ ((tm :: (ms ++ W)) ++ rest))
+    (hm : (e.has Gen.EXT_COMPONENT_MODIFIERS = false ∧ ms = []) ∨
+      (e.has Gen.EXT_COMPONENT_MODIFIERS = true ∧ ∀ m ∈ ms, modKind m.kind = true)) (hs : SimpleMods ms)
+    (hW : ∀ t ∈ W, wordKind t.kind = true) (hne : W ≠ [])
+    (hR : ∀ t, rest.head? = some t → wordKind t.kind = false) (hnb : noBraceFirst rest = true)
+    (hnp : ∀ t, rest.head? = some t → t.kind ≠ .openParen)
+    (hname : (buildText (offAt T (A.length + 1 + ms.length)) W).isTextEmpty cs = false) :
+    (tm.kind = .at → PlPieceAt (α := α) T cs e A ⟨tm :: (ms ++ W), c07s_ingrShortF T A tm ms W⟩) ∧
+    (tm.kind = .hash → PlPieceAt (α := α) T cs e A ⟨tm :: (ms ++ W), c07s_cwShortF T A tm ms W⟩) :=
+  ⟨fun hk => c07s_ingredient_short_piece T A rest cs e tm ms W hT hw hk hm hs hW hne hR hnb hnp hname,
+   fun hk => c07s_cookware_short_piece T A rest cs e tm ms W hT hw hk hm hs hW hne hR hnb hnp hname⟩
+
+/-- **Instance: single-word ingredient / cookware with modifier tokens planted in a document.**  The construct is given
+    by SPECIFICATION tokens `marker msS WS` (conditions on them and on the specified tokens after the construct; the
+    name shows a non-blank character in a plain token).  On every actual block the construct is a piece with the events
+    of `C07_planted_single_word_modifiers` on the actual parts (`c07s_shortSpec`): the hypothesis `hB` of
+    `C07_planted_document`. -/
+theorem C07_planted_document_single_word_modifiers (env : Env) (pre post : List SegX) (tmS : Tok) (msS WS : List Tok)
+    (hm : (env.ext.has Gen.EXT_COMPONENT_MODIFIERS = false ∧ msS = []) ∨
+      (env.ext.has Gen.EXT_COMPONENT_MODIFIERS = true ∧ ∀ m ∈ msS, modKind m.kind = true)) (hs : SimpleMods msS)
+    (hW : ∀ t ∈ WS, wordKind t.kind = true) (hne : WS ≠ [])
+    (hR : ∀ t, (post.flatMap SegX.spell).head? = some t → wordKind t.kind = false)
+    (hnb : noBraceFirst (post.flatMap SegX.spell) = true)
+    (hnp : ∀ t, (post.flatMap SegX.spell).head? = some t → t.kind ≠ .openParen)
+    (hname : ∃ t ∈ WS, plainKind t.kind = true ∧ NBs env.cs t.text) :
+    (tmS.kind = .at →
+      ∀ (T tpre tB tpost : List Tok), T = tpre ++ (tB ++ tpost) → Spells tpre (pre.flatMap SegX.spell) →
+        Spells tB (tmS :: (msS ++ WS)) → Spells tpost (post.flatMap SegX.spell) → RunAt (baseOff T) T →
+        PlPieceAt (α := α) T env.cs env.ext tpre ⟨tB, c07s_shortSpec msS WS tB (c07s_ingrShortF T tpre)⟩) ∧
+    (tmS.kind = .hash →
+      ∀ (T tpre tB tpost : List Tok), T = tpre ++ (tB ++ tpost) → Spells tpre (pre.flatMap SegX.spell) →
+        Spells tB (tmS :: (msS ++ WS)) → Spells tpost (post.flatMap SegX.spell) → RunAt (baseOff T) T →
+        PlPieceAt (α := α) T env.cs env.ext tpre ⟨tB, c07s_shortSpec msS WS tB (c07s_cwShortF T tpre)⟩) :=
+  ⟨fun hk T tpre tB tpost hT _ hsB hpost hrun =>
+      (c07s_short_mods_pieceAt env.cs env.ext tmS msS WS _ hm hs hW hne hR hnb hnp hname T tpre tB tpost hT hsB hpost
+        hrun).1 hk,
+   fun hk T tpre tB tpost hT _ hsB hpost hrun =>
+      (c07s_short_mods_pieceAt env.cs env.ext tmS msS WS _ hm hs hW hne hR hnb hnp hname T tpre tB tpost hT hsB hpost
+        hrun).2 hk⟩
+
+/-! non-vacuity: the document `>> source: grandma` / blank / `Use #@pot now` under COMPONENT_MODIFIERS: all hypotheses
+    of `C07_planted_document` decided, `hB` from the instance; evaluated report: exactly `cookware-recipe-modifier`
+    ⟨25,26⟩, no output; `Use @&&salt now`: `duplicate-modifier` ⟨25,27⟩. -/
+def C07_sB3 : List Tok := tk .hash ['#'] :: ([tk .at ['@']] ++ [tk .word "pot".toList])
+def C07_sSpec3 : List Tok → List Tok → List Tok → List (Ev Rat) → Prop :=
+  fun T tpre tB => c07s_shortSpec [tk .at ['@']] [tk .word "pot".toList] tB (c07s_cwShortF T tpre)
+def C07_sDoc3 : List (PlBlock Rat × List Tok) :=
+  plantedDoc toyCharSpec C07_dDocA [] C07_plPre' C07_plPost C07_sB3 [C01_nl] C07_sSpec3
+example : render ([] ++ plDocSpec C07_sDoc3) = ">> source: grandma\n\nUse #@pot now\n".toList := by decide
+example : ∃ (T tpre tB tpost : List Tok) (evsB : List (Ev Rat)),
+    T <:+: lex toyCharSpec (render ([] ++ plDocSpec C07_sDoc3)) ∧ T = tpre ++ (tB ++ tpost) ∧
+    Spells tB C07_sB3 ∧ C07_sSpec3 T tpre tB evsB ∧
+    (parseRecipe (α := Rat) C07_vEnvM (render ([] ++ plDocSpec C07_sDoc3))).diags.toList.filter
+      (fun d => d.stage == .parse) = evDiags evsB := by
+  obtain ⟨T, tpre, tB, tpost, evsB, h1, h2, -, h4, -, h6, h7, -⟩ :=
+    C07_planted_document (α := Rat) C07_vEnvM [] C07_dDocA [] C07_plPre' C07_plPost C07_sB3 [C01_nl] C07_sSpec3
+      (by decide) (by decide) (by intro d h; cases h) (by decide)
+      ((C07_planted_document_single_word_modifiers C07_vEnvM C07_plPre' C07_plPost (tk .hash ['#']) [tk .at ['@']]
+        [tk .word "pot".toList] (Or.inr ⟨rfl, by decide⟩) (by intro t h; simp at h; subst h; decide) (by decide) (by decide)
+        (by intro t h; simp [C07_plPost, SegX.spell] at h; subst h; decide) (by decide)
+        (by intro t h; simp [C07_plPost, SegX.spell] at h; subst h; decide)
+        ⟨tk .word "pot".toList, by simp, rfl, 'p', by simp [tk], by decide⟩).2 rfl)
+      (by decide) (by decide) (by decide)
+  exact ⟨T, tpre, tB, tpost, evsB, h1, h2, h4, h6, h7⟩
+example : ((parseRecipe (α := Rat) C07_vEnvM (render ([] ++ plDocSpec C07_sDoc3))).diags.toList,
+      (parseRecipe (α := Rat) C07_vEnvM (render ([] ++ plDocSpec C07_sDoc3))).output.isSome) =
+    ([⟨.error, .parse, "cookware-recipe-modifier", [⟨25, 26⟩]⟩], false) := by decide +kernel
+example : (parseRecipe (α := Rat) C07_vEnvM ">> source: grandma\n\nUse @&&salt now\n".toList).diags.toList =
+    [⟨.error, .parse, "duplicate-modifier", [⟨25, 27⟩]⟩] := by decide +kernel
+
+/-! ### `inter-ref-not-allowed:cookware` as a placement piece, step and document level (wave 10) -/
+
+/-- the cookware event of `#&( inner )name{}` planted after `A` in `T`: `&` flag -/
+def C07_interCw (T A : List Tok) (tm tand top : Tok) (inner : List Tok) (tcp : Tok) (nameT : List Tok) (tob : Tok)
+    (Q : List Tok) (tcb : Tok) : Ev α :=
+  .cookware ⟨⟨⟨Modifiers.empty.insert Modifiers.REF, tokensSpan (tand :: top :: (inner ++ [tcp]))⟩,
+      buildText (offAt T (A.length + 1 + (c07i_mods [] tand top inner tcp []).length)) nameT, none, none, none⟩,
+    ⟨offAt T A.length,
+     offAt T (A.length + (c07p_comp tm (c07i_mods [] tand top inner tcp []) nameT tob Q tcb).length)⟩⟩
+
+/-- **An intermediate reference on a cookware item, wherever it stands** (`#&(1)pot{}`; COMPONENT_MODIFIERS and
+    INTERMEDIATE_PREPARATIONS on; closes the cookware part left open by `C07_planted_inter_ref_family_partial`).  A
+    cookware item with modifier tokens exactly `&` `(` inner `)`, a non-blank name without alias separator, blank
+    braces, not followed by `(`.  One iteration of the step loop pushes EXACTLY `inter-ref-not-allowed:cookware` (error,
+    parse; labelled with the span of the data = the group `( … )`, inside the construct), then the item with the `&`
+    flag on the byte range of the construct:
+    * generic: whenever the data reader ACCEPTS the group with data `dd` without pushing anything;
+    * the group holds one integer `i ≤ 32767` (and blanks): the label is the span of `( … )`.
+    (A REJECTED group on cookware pushes the rejection only: no data, so no `inter-ref-not-allowed` — not stated here.) -/
+theorem C07_planted_inter_ref_cookware (T A rest : List Tok) (cs : CharSpec) (e : Ext) (hw : WF T)
+    (tm tand top : Tok) (inner : List Tok) (tcp : Tok) (nameT : List Tok) (tob : Tok) (Q : List Tok) (tcb : Tok)
+    (hT : T = A ++ (c07p_comp tm (c07i_mods [] tand top inner tcp []) nameT tob Q tcb ++ rest))
+    (sh : PlShapeI e .hash tm [] tand top inner tcp [] nameT tob Q tcb rest)
+    (hQ : ∀ t ∈ Q, isPadK t = true)
+    (ha : e.has Gen.EXT_COMPONENT_ALIAS = false ∨ ∀ t ∈ nameT, t.kind ≠ .or)
+    (hname : (buildText (offAt T (A.length + 1 + (c07i_mods [] tand top inner tcp []).length)) nameT).isTextEmpty cs
+      = false) :
+    (∀ dd : Loc InterData,
+      (∀ s0 : BP α, parseInterRef (α := α) (top :: (inner ++ tcp :: [])) s0 = ((some dd, []), s0)) →
+      PlPieceAt (α := α) T cs e A ⟨c07p_comp tm (c07i_mods [] tand top inner tcp []) nameT tob Q tcb, fun evs =>
+        evs = [.error ⟨.error, .parse, "inter-ref-not-allowed:cookware", [dd.span]⟩,
+          C07_interCw T A tm tand top inner tcp nameT tob Q tcb]⟩) ∧
+    (∀ i, inner.filter nonBlankTok = [i] → i.kind = .int → digitsToNat i.text ≤ 32767 →
+      PlPieceAt (α := α) T cs e A ⟨c07p_comp tm (c07i_mods [] tand top inner tcp []) nameT tob Q tcb, fun evs =>
+        evs = [.error ⟨.error, .parse, "inter-ref-not-allowed:cookware", [tokensSpan (top :: (inner ++ [tcp]))]⟩,
+          C07_interCw T A tm tand top inner tcp nameT tob Q tcb]⟩) := by
+  have g := c07j_cookware_inter_piece (α := α) T A rest cs e tm tand top inner tcp nameT tob Q tcb hT hw sh hQ ha hname
+  exact ⟨g, fun i h h1 h2 => g _ (fun s0 => parseInterRef_good top tcp inner [] s0 sh.hop sh.hcp sh.hin i h h1 h2)⟩
+
+/-- **Instance: an intermediate reference on a cookware item planted in a document.**  The construct is given by
+    SPECIFICATION tokens `# & ( innerS ) nameS { QS }` (`PlShapeI` on them; the group holds one integer `≤ 32767` and
+    blanks; a name showing a non-blank character in a plain token, no alias separator, blank braces).  On every actual
+    block the construct is a piece: EXACTLY `inter-ref-not-allowed:cookware` labelled with the byte range of the
+    ACTUAL group `( … )`, then the item (`c07v_interSpec`): the hypothesis `hB` of `C07_planted_document`. -/
+theorem C07_planted_document_inter_ref_cookware (env : Env) (pre post : List SegX) (tmS tandS topS : Tok)
+    (innerS : List Tok) (tcpS : Tok) (nameS : List Tok) (tobS : Tok) (QS : List Tok) (tcbS : Tok)
+    (sh : PlShapeI env.ext .hash tmS [] tandS topS innerS tcpS [] nameS tobS QS tcbS (post.flatMap SegX.spell))
+    (hQ : ∀ t ∈ QS, isPadK t = true)
+    (halias : env.ext.has Gen.EXT_COMPONENT_ALIAS = false ∨ ∀ t ∈ nameS, t.kind ≠ .or)
+    (hname : ∃ t ∈ nameS, plainKind t.kind = true ∧ NBs env.cs t.text)
+    (iS : Tok) (hf : innerS.filter nonBlankTok = [iS]) (hi : iS.kind = .int) (hfit : digitsToNat iS.text ≤ 32767) :
+    ∀ (T tpre tB tpost : List Tok), T = tpre ++ (tB ++ tpost) → Spells tpre (pre.flatMap SegX.spell) →
+      Spells tB (c07p_comp tmS (c07i_mods [] tandS topS innerS tcpS []) nameS tobS QS tcbS) →
+      Spells tpost (post.flatMap SegX.spell) → RunAt (baseOff T) T →
+      PlPieceAt (α := α) T env.cs env.ext tpre ⟨tB, c07v_interSpec innerS nameS QS tB
+        (fun tm tand top inner tcp nameT tob Q tcb evs =>
+          evs = [.error ⟨.error, .parse, "inter-ref-not-allowed:cookware", [tokensSpan (top :: (inner ++ [tcp]))]⟩,
+            C07_interCw T tpre tm tand top inner tcp nameT tob Q tcb])⟩ := by
+  intro T tpre tB tpost hT _ hsB hpost hrun
+  obtain ⟨tm, tand, top, inner, tcp, nameT, tob, Q, tcb, rfl, ki, k3, k5, sh'⟩ := c07v_inter_spells_inv sh hsB hpost
+  have hw : WF T := ⟨by rw [hT]; simp [c07p_comp], hrun⟩
+  have hf' := c07v_filter_transfer ki
+  rw [hf] at hf'
+  obtain ⟨i', e1, ki', ti⟩ := hf'.single_inv
+  exact ((C07_planted_inter_ref_cookware (α := α) T tpre tpost env.cs env.ext hw tm tand top inner tcp nameT tob Q tcb
+    hT sh' (c07v_pad_transfer k5 hQ) (c07x_alias_transfer k3 halias) (c07x_name_transfer k3 hname _)).2 i' e1
+    (ki'.trans hi) (by rw [ti]; exact hfit)).mono
+    (fun evs he => ⟨tm, tand, top, inner, tcp, nameT, tob, Q, tcb, rfl, sh'.hop, sh'.hcp, ki, k3, k5, he⟩)
+
+/-! non-vacuity: `Use #&(1)pot{} now` under COMPONENT_MODIFIERS + INTERMEDIATE_PREPARATIONS given by specification tokens:
+    the hypotheses hold; in the document `>> source: grandma` / blank / that step the evaluated report is exactly
+    `inter-ref-not-allowed:cookware` on the group ⟨26,29⟩. -/
+theorem C07_vShapeICw : PlShapeI C07_vEnvI.ext .hash (tk .hash ['#']) [] (tk .and ['&']) (tk .openParen ['('])
+    [tk .int ['1']] (tk .closeParen [')']) [] C07_xPot (tk .openBrace ['{']) [] (tk .closeBrace ['}'])
+    (C07_plPost.flatMap SegX.spell) :=
+  ⟨rfl, by decide, by decide, (by intro t h; cases h), rfl, rfl, (by intro t h; simp at h; subst h; decide), rfl,
+   (by intro t h; cases h), (by intro t h; simp [C07_xPot] at h; subst h; decide),
+   (by intro t h; simp [C07_xPot] at h; subst h; decide),
+   rfl, (by intro t h; cases h), rfl, (by intro t h; simp [C07_plPost, SegX.spell] at h; subst h; decide)⟩
+example := C07_planted_document_inter_ref_cookware (α := Rat) C07_vEnvI C07_plPre' C07_plPost _ _ _ _ _ _ _ _ _
+    C07_vShapeICw (by intro t h; cases h) (Or.inl (by decide))
+    ⟨tk .word "pot".toList, by simp [C07_xPot], rfl, 'p', by simp [tk], by decide⟩ (tk .int ['1']) (by decide) rfl
+    (by decide)
+example : (parseRecipe (α := Rat) C07_vEnvI ">> source: grandma\n\nUse #&(1)pot{} now\n".toList).diags.toList =
+    [⟨.error, .parse, "inter-ref-not-allowed:cookware", [⟨26, 29⟩]⟩] := by decide +kernel
+
+/-- **Instance: an empty value with a blank value TOKEN after the lock, `@name{ = padding %unit }`, planted in a
+    document** (`@x{= %g}`, `@x{ =  %}`; left open by wave 9).  Quantity tokens: blanks, the `=`, at least one padding
+    token (spaces, block comments — these ARE the value tokens), the `%`, any unit tokens; no modifiers, no alias
+    separator, a name showing a non-blank character, not followed by `(`.  On every actual block the construct's events
+    are EXACTLY `empty-value` (error, parse) labelled with the span of the actual padding text (not the empty span at
+    the `%` of `@x{=%g}`), then the warning `empty-unit` on the actual `%` iff the unit text is blank, then the
+    ingredient (unit from the actual unit tokens; lock = the span of the actual `=`) on the byte range of the construct.
+    Every extension set. -/
+theorem C07_planted_document_empty_value_locked (env : Env) (pre post : List SegX) (tmS : Tok) (nameS : List Tok)
+    (tobS tcbS : Tok) (preS : List Tok) (eqS : Tok) (vtS : List Tok) (pctS : Tok) (utS : List Tok)
+    (sh : PlShape env.ext .at tmS [] nameS tobS (preS ++ ([eqS] ++ (vtS ++ pctS :: utS))) tcbS
+      (post.flatMap SegX.spell))
+    (halias : env.ext.has Gen.EXT_COMPONENT_ALIAS = false ∨ ∀ t ∈ nameS, t.kind ≠ .or)
+    (hname : ∃ t ∈ nameS, plainKind t.kind = true ∧ NBs env.cs t.text)
+    (hpre : ∀ t ∈ preS, isWsComment t.kind = true) (heq : eqS.kind = .eq)
+    (hvt : padOK env.cs vtS = true) (hne : vtS ≠ []) (hpct : pctS.kind = .percent) :
+    ∀ (T tpre tB tpost : List Tok), T = tpre ++ (tB ++ tpost) → Spells tpre (pre.flatMap SegX.spell) →
+      Spells tB (c07p_comp tmS [] nameS tobS (preS ++ ([eqS] ++ (vtS ++ pctS :: utS))) tcbS) →
+      Spells tpost (post.flatMap SegX.spell) → RunAt (baseOff T) T →
+      PlPieceAt (α := α) T env.cs env.ext tpre ⟨tB, c07x_ingrQtySpec nameS (preS ++ ([eqS] ++ (vtS ++ pctS :: utS)))
+        (c07u_emptyValueEvs env.cs preS.length vtS.length)
+        (c07u_emptyValueRead env.cs preS.length vtS.length) T tpre tB⟩ :=
+  (C07_planted_document_quantity_family (α := α) env pre post tmS nameS tobS _ tcbS
+    ⟨pctS, by simp, by simp [isPadK, hpct]⟩ _ _
+    (c07u_empty_value_locked_reading env.cs env.ext preS eqS vtS pctS utS hpre heq hvt hne hpct)).1 sh halias hname
+
+/-! non-vacuity: `Use @x{= %g} now`: instance applied to the specification tokens; in the document
+    `>> source: grandma` / blank / that step the evaluated report is exactly `empty-value` on the blank ⟨28,29⟩. -/
+def C07_uQ : List Tok := [] ++ ([tk .eq ['=']] ++ ([tk .ws [' ']] ++ tk .percent ['%'] :: [tk .word ['g']]))
+theorem C07_uShape : PlShape C07_coreEnv.ext .at (tk .at ['@']) [] C07_xName (tk .openBrace ['{']) C07_uQ
+    (tk .closeBrace ['}']) (C07_plPost.flatMap SegX.spell) :=
+  ⟨rfl, Or.inl ⟨rfl, rfl⟩, by decide, rfl, by decide, rfl,
+   by intro t h; simp [C07_plPost, SegX.spell] at h; subst h; decide⟩
+example := C07_planted_document_empty_value_locked (α := Rat) C07_coreEnv C07_plPre' C07_plPost _ C07_xName _ _ []
+  (tk .eq ['=']) [tk .ws [' ']] (tk .percent ['%']) [tk .word ['g']] C07_uShape (Or.inl rfl) C07_xNameNB
+  (by intro t h; cases h) rfl (by decide) (by decide) rfl
+example : (parseRecipe (α := Rat) C07_coreEnv ">> source: grandma\n\nUse @x{= %g} now\n".toList).diags.toList =
+    [⟨.error, .parse, "empty-value", [⟨28, 29⟩]⟩] := by decide +kernel
+
+/-! ### Ingredient / cookware in braces form FOLLOWED BY A NOTE (wave 10; outside `PlShape`) -/
+
+/-- **An ingredient / cookware item `marker ms name {}` followed by a note `( N )`, wherever it stands** (`@&&x{}(hi)`,
+    `#@x{}(hi)`; plain modifier tokens, a non-blank name without alias separator, blank braces, `N` without `)`).  For
+    these two components the note IS consumed: one iteration of the step loop consumes component and note and pushes
+    EXACTLY the diagnostics of the component without note — one `duplicate-modifier` per repeated modifier token, for
+    cookware then `cookware-recipe-modifier` iff `@` is among the modifiers — then the component CARRYING THE NOTE
+    (the text of `N`) on the byte range of component and note.  (Timers: `C07_planted_timer_family`, the note is
+    refused.) -/
+theorem C07_planted_component_with_note (T A rest : List Tok) (cs : CharSpec) (e : Ext) (hw : WF T) (tm : Tok)
+    (ms nameT : List Tok) (tob : Tok) (Q : List Tok) (tcb top : Tok) (N : List Tok) (tcp : Tok)
+    (hT : T = A ++ (c07n_toks tm ms nameT tob Q tcb top N tcp ++ rest))
+    (hop : top.kind = .openParen) (hN : ∀ t ∈ N, t.kind ≠ .closeParen) (hcp : tcp.kind = .closeParen)
+    (hs : SimpleMods ms) (hQ : ∀ t ∈ Q, isPadK t = true)
+    (ha : e.has Gen.EXT_COMPONENT_ALIAS = false ∨ ∀ t ∈ nameT, t.kind ≠ .or)
+    (hname : (buildText (offAt T (A.length + 1 + ms.length)) nameT).isTextEmpty cs = false) :
+    (PlShapeN e .at tm ms nameT tob Q tcb →
+      PlPieceAt (α := α) T cs e A ⟨c07n_toks tm ms nameT tob Q tcb top N tcp, fun evs =>
+        evs = List.replicate (foldMods Modifiers.empty ms).2
+            (.error ⟨.error, .parse, "duplicate-modifier", [tokensSpan ms]⟩) ++
+          [.ingredient ⟨⟨simpleFlags ms (offAt T (A.length + 1)), none,
+            buildText (offAt T (A.length + 1 + ms.length)) nameT, none, none, some (buildText top.stop N)⟩,
+          ⟨offAt T A.length, offAt T (A.length + (c07n_toks tm ms nameT tob Q tcb top N tcp).length)⟩⟩]⟩) ∧
+    (PlShapeN e .hash tm ms nameT tob Q tcb →
+      PlPieceAt (α := α) T cs e A ⟨c07n_toks tm ms nameT tob Q tcb top N tcp, fun evs =>
+        evs = List.replicate (foldMods Modifiers.empty ms).2
+            (.error ⟨.error, .parse, "duplicate-modifier", [tokensSpan ms]⟩) ++ recipeModEvs ms ++
+          [.cookware ⟨⟨simpleFlags ms (offAt T (A.length + 1)),
+            buildText (offAt T (A.length + 1 + ms.length)) nameT, none, none, some (buildText top.stop N)⟩,
+          ⟨offAt T A.length, offAt T (A.length + (c07n_toks tm ms nameT tob Q tcb top N tcp).length)⟩⟩]⟩) :=
+  ⟨fun sh => c07n_ingredient_note_piece T A rest cs e tm ms nameT tob Q tcb top N tcp hT hw sh hop hN hcp hs hQ ha hname,
+   fun sh => c07n_cookware_note_piece T A rest cs e tm ms nameT tob Q tcb top N tcp hT hw sh hop hN hcp hs hQ ha hname⟩
+
+/-! non-vacuity: `Use @&&x{}(a) now` under COMPONENT_MODIFIERS: the hypotheses hold on the step's tokens; the real run
+    reports exactly `duplicate-modifier` ⟨5,7⟩. -/
+def C07_nToks : List Tok :=
+  [⟨.word, "Use".toList, 0⟩, ⟨.ws, [' '], 3⟩, ⟨.at, ['@'], 4⟩, ⟨.and, ['&'], 5⟩, ⟨.and, ['&'], 6⟩, ⟨.word, ['x'], 7⟩,
+   ⟨.openBrace, ['{'], 8⟩, ⟨.closeBrace, ['}'], 9⟩, ⟨.openParen, ['('], 10⟩, ⟨.word, ['a'], 11⟩,
+   ⟨.closeParen, [')'], 12⟩, ⟨.ws, [' '], 13⟩, ⟨.word, "now".toList, 14⟩]
+theorem C07_nWF : WF C07_nToks :=
+  WF.of_chain (off := 0) (by simp [C07_nToks, Chain, Tok.stop, utf8Len]; decide)
+    (by intro t ht; simp [C07_nToks] at ht
+        rcases ht with rfl | rfl | rfl | rfl | rfl | rfl | rfl | rfl | rfl | rfl | rfl | rfl | rfl <;> simp)
+    (by simp [C07_nToks])
+example := (C07_planted_component_with_note (α := Rat) C07_nToks [⟨.word, "Use".toList, 0⟩, ⟨.ws, [' '], 3⟩]
+    [⟨.ws, [' '], 13⟩, ⟨.word, "now".toList, 14⟩] toyCharSpec ⟨Gen.EXT_COMPONENT_MODIFIERS⟩ C07_nWF ⟨.at, ['@'], 4⟩
+    [⟨.and, ['&'], 5⟩, ⟨.and, ['&'], 6⟩] [⟨.word, ['x'], 7⟩] ⟨.openBrace, ['{'], 8⟩ [] ⟨.closeBrace, ['}'], 9⟩
+    ⟨.openParen, ['('], 10⟩ [⟨.word, ['a'], 11⟩] ⟨.closeParen, [')'], 12⟩ rfl rfl
+    (by intro t h; simp at h; subst h; decide) rfl (by intro t h; simp at h; rcases h with rfl | rfl <;> decide)
+    (by intro t h; cases h) (Or.inl (by decide)) (by decide)).1
+    ⟨rfl, Or.inr ⟨by decide, by intro t h; simp at h; rcases h with rfl | rfl <;> decide,
+        by intro x h; simp at h; subst h; decide⟩,
+      (by intro t h; simp at h; subst h; decide), rfl, (by intro t h; cases h), rfl⟩
+example : (parseRecipe (α := Rat) C07_vEnvM "Use @&&x{}(a) now\n".toList).diags.toList =
+    [⟨.error, .parse, "duplicate-modifier", [⟨5, 7⟩]⟩] := by decide +kernel
 
 end Cook
